@@ -302,7 +302,71 @@ func vfC27GenClass(r *vfRand) string {
 	return b.String()
 }
 
+// vfC27MetaShape: literal text containing a metacharacter of regexp/syntax at a position where printing it UNESCAPED would
+// change the parse (a literal that looks like a counted repeat, a postfix operator, an alternation bar, a group, a class,
+// an anchor, an escape sequence ...), for every metacharacter of `\.+*?()|[]{}^$`.
+func vfC27MetaShape(r *vfRand) string {
+	atom := func() string {
+		return r.Pick([]string{"a", "b", "foo", "ab", "x", "é", `\d`, `\w`, "[a-c]", "(ab)", "(?:a|b)", ".", "0", "k"})
+	}
+	n := func() string { return fmt.Sprint(r.Intn(4)) }
+	switch r.Intn(24) {
+	case 0:
+		return atom() + `\{` + n() + `\}`
+	case 1:
+		return atom() + `\{` + n() + `,\}`
+	case 2:
+		a := r.Intn(3)
+		return atom() + `\{` + fmt.Sprint(a) + "," + fmt.Sprint(a+r.Intn(3)) + `\}`
+	case 3:
+		return atom() + `{` + n() + `\}` + r.Pick([]string{"", "x"}) // only one brace needs the escape
+	case 4:
+		return atom() + r.Pick([]string{`\*`, `\+`, `\?`, `\*\?`, `\+\?`, `\?\?`}) + r.Pick([]string{"", "b"})
+	case 5:
+		return atom() + `\|` + atom()
+	case 6:
+		return `\(` + atom() + `\)` + r.Pick([]string{"", `\*`, "*", "+"})
+	case 7:
+		return `\(` + atom() + `\|` + atom() + `\)`
+	case 8:
+		return `\(\?:` + atom() + `\)`
+	case 9:
+		return `\(\?i\)` + atom()
+	case 10:
+		return `\[` + r.Pick([]string{"a", "abc", "a-c", "^a", "^a-c", "[:alpha:]", "\\]"}) + `\]` + r.Pick([]string{"", "+", "*"})
+	case 11:
+		return r.Pick([]string{`\^`, `\$`, `\^\$`}) + atom()
+	case 12:
+		return atom() + r.Pick([]string{`\$`, `\^`})
+	case 13:
+		return atom() + `\.` + atom()
+	case 14:
+		return `\\` + r.Pick([]string{"d", "w", "s", "b", "B", "A", "z", "pL", "x41", "n", "Q", "E", "1", "."}) + atom()
+	case 15:
+		return `\Q` + r.Pick([]string{"a{2}", "(a|b)*", "[a-c]+", "a.b", "^a$", "a\\d", "x{1,2}y", "a|b", "?", "*"}) + `\E` + r.Pick([]string{"", "+", "{2}"})
+	case 16:
+		return "[" + r.Pick([]string{`\]a`, `a\]`, `\^a`, `a\-c`, `\\d`, `\[:alpha:\]`, `a\^`, `\-`, `\\`, `{}`, `\{2\}`, `.*+?|()$`}) + "]" + r.Pick([]string{"", "+", "{2}"})
+	case 17:
+		return atom() + `\{` + n() + `\}` + `\{` + n() + `\}`
+	case 18:
+		return "(" + atom() + `)\{` + n() + `\}`
+	case 19:
+		return atom() + `\{,` + n() + `\}`
+	case 20:
+		return atom() + `\{` + r.Pick([]string{"a", "", " 2", "2 ", "-1", "1001", "2,1"}) + `\}`
+	case 21:
+		return `\{` + n() + `\}` + atom()
+	case 22:
+		return atom() + `\-` + atom() + `\#` + `\ ` + `\/` // punctuation that needs no escape
+	default:
+		return `\*` + atom() + `\+` + `\?` + `\|` + `\(` + `\)` + `\[` + `\]` + `\{` + `\}` + `\^` + `\$` + `\.` + `\\`
+	}
+}
+
 func vfC27Gen(r *vfRand, depth int) string {
+	if r.Chance(12) {
+		return vfC27MetaShape(r)
+	}
 	k := r.Intn(100)
 	if depth <= 0 && k >= 45 {
 		k = r.Intn(45)
@@ -483,6 +547,71 @@ func vfC27Subjects(r *vfRand, alpha []rune, maxLen int, extra int) [][]rune {
 	return out
 }
 
+// vfC27Witness derives a string from an AST by a random walk (alternative choice, min..min+2 repetitions, a rune of a class,
+// the literal itself or a fold partner): mostly a string the AST matches, so that a language difference between two ASTs
+// shows up as a subject one of them matches and the other does not.
+func vfC27Witness(r *vfRand, re *syntax.Regexp, depth int) []rune {
+	var out []rune
+	rep := func(sub *syntax.Regexp, min, max int) {
+		k := min + r.Intn(3)
+		if max >= 0 && k > max {
+			k = max
+		}
+		if depth > 6 && k > min {
+			k = min
+		}
+		for i := 0; i < k && len(out) < 40; i++ {
+			out = append(out, vfC27Witness(r, sub, depth+1)...)
+		}
+	}
+	switch re.Op {
+	case syntax.OpLiteral:
+		for _, c := range re.Rune {
+			if re.Flags&syntax.FoldCase != 0 && r.Chance(40) {
+				c = unicode.SimpleFold(c)
+			}
+			out = append(out, c)
+		}
+	case syntax.OpCharClass:
+		if n := len(re.Rune) / 2; n > 0 {
+			k := r.Intn(n)
+			lo, hi := re.Rune[2*k], re.Rune[2*k+1]
+			c := lo
+			if hi > lo && r.Chance(50) {
+				c = hi
+			}
+			if c >= 0xD800 && c <= 0xDFFF {
+				c = 'a'
+			}
+			out = append(out, c)
+		}
+	case syntax.OpAnyCharNotNL, syntax.OpAnyChar:
+		out = append(out, []rune{'a', 'z', '{', '2', '}', 'é', ' '}[r.Intn(7)])
+	case syntax.OpCapture:
+		out = vfC27Witness(r, re.Sub[0], depth+1)
+	case syntax.OpStar:
+		rep(re.Sub[0], 0, -1)
+	case syntax.OpPlus:
+		rep(re.Sub[0], 1, -1)
+	case syntax.OpQuest:
+		rep(re.Sub[0], 0, 1)
+	case syntax.OpRepeat:
+		rep(re.Sub[0], re.Min, re.Max)
+	case syntax.OpConcat:
+		for _, s := range re.Sub {
+			out = append(out, vfC27Witness(r, s, depth+1)...)
+		}
+	case syntax.OpAlternate:
+		if len(re.Sub) > 0 {
+			out = vfC27Witness(r, re.Sub[r.Intn(len(re.Sub))], depth+1)
+		}
+	}
+	if len(out) > 40 {
+		out = out[:40]
+	}
+	return out
+}
+
 func vfC27RuneIdx(s string, byteOff int) int { return utf8.RuneCountInString(s[:byteOff]) }
 
 type vfC27Diff struct {
@@ -495,6 +624,18 @@ type vfC27Diff struct {
 func vfC27Hunt(r *vfRand, p string, a0, a1, a2, a3 *syntax.Regexp, maxLen, extra int) (diffs []vfC27Diff, nsub int, engineSamples [][2]string) {
 	alpha := vfC27Alphabet(r, a0, a1, a2)
 	subs := vfC27Subjects(r, alpha, maxLen, extra)
+	for _, x := range []*syntax.Regexp{a0, a1, a2, a3} {
+		if x == nil {
+			continue
+		}
+		for k := 0; k < 6; k++ {
+			w := vfC27Witness(r, x, 0)
+			subs = append(subs, w)
+			if k%3 == 2 {
+				subs = append(subs, append(append([]rune{'a'}, w...), '\n'))
+			}
+		}
+	}
 	nsub = len(subs)
 	e0, err0 := regexp.Compile("(?m)" + p)
 	e1, err1 := regexp.Compile(syntaxutil.RegexpString(a0))
@@ -726,7 +867,9 @@ func TestVerifC27(t *testing.T) {
 	}
 	n := vfN(1500)
 	fixed := []string{`a`, `(a)`, `(a|b)c`, `x|(ab|cd)`, `(ab)*`, `a{2,3}`, `(a{2,}){2}`, `(?i)k`, `[Aa]`, `A|a`, `z(?:abc|abd)`, `a|ab`, `(?i)σ`, `[^a]|a`,
-		`\bfoo\b`, `^a$`, `(?-m)^a$`, `(?s).`, `.`, `[^\n]`, `(?U)a+`, `a+?`, `()`, `(|a)`, `a**`, `(?:a+)?`, `(?:(?:a){0}){3}`, `(a*)+`, `[[:^alpha:]]`, `\pN+`, `\x{10ffff}`, `\Q+|*\E`, `(?i)İ`, `(?i)[k-l]`, `(?i)ǆ`, `-`, `[a\-z]`, `[\^]`, `\^`}
+		`\bfoo\b`, `^a$`, `(?-m)^a$`, `(?s).`, `.`, `[^\n]`, `(?U)a+`, `a+?`, `()`, `(|a)`, `a**`, `(?:a+)?`, `(?:(?:a){0}){3}`, `(a*)+`, `[[:^alpha:]]`, `\pN+`, `\x{10ffff}`, `\Q+|*\E`, `(?i)İ`, `(?i)[k-l]`, `(?i)ǆ`, `-`, `[a\-z]`, `[\^]`, `\^`,
+		// one literal per metacharacter, placed where the unescaped form would parse differently
+		`a\{2\}`, `foo\{3\}`, `\d\{3\}`, `x\{1,2\}`, `(ab)\{2\}`, `a\{2,\}`, `a\*`, `a\+b`, `a\?`, `a\|b`, `\(a\)`, `\(a\|b\)\*`, `\[a\]`, `\[a-c\]+`, `\^a`, `a\$`, `a\.b`, `\\d`, `\\ba`, `[\]a]`, `[\^a]`, `[\\d]`, `\Qa{2}\E`, `\Q(a|b)*\E`}
 	done := 0
 	seen := map[string]bool{}
 	for _, p := range fixed {
